@@ -267,6 +267,12 @@ func ScaleDocsUpTo(maxWide, maxText int) []VCase {
 		if n > maxWide {
 			continue
 		}
+		first := len(out)
+		defer func(first, n int) {
+			for i := first; i < first+6 && i < len(out); i++ {
+				out[i].Tag = "deep" + strconv.Itoa(n)
+			}
+		}(first, n)
 		// deep
 		add("{dog{" + strings.Repeat("owner{pet{... on Dog{", n) + "name" + strings.Repeat("}}}", n) + "}}")
 		add("{find(ids:" + strings.Repeat("[", n) + "1" + strings.Repeat("]", n) + "){name}}")
@@ -287,6 +293,66 @@ func ScaleDocsUpTo(maxWide, maxText int) []VCase {
 		add("{dog{name}} #" + strings.Repeat("c", n) + "\n")
 		add("query " + strings.Repeat("Q", n) + "{dog{" + strings.Repeat("a", n) + ":name}}")
 		add("{find(ids:[" + strings.Repeat("1", n) + "]){name}}")
+	}
+	return out
+}
+
+// ScaleSchemas: valid type systems at sizes around the same thresholds: many fields, enum values, union
+// members, arguments, directive arguments and applications, implemented interfaces, input fields,
+// types and extensions; descriptions, default values, deprecation reasons and names of 4 KiB and
+// 64 KiB, quoted and block form.
+func ScaleSchemas() []string { return ScaleSchemasUpTo(1<<30, 1<<30) }
+
+func ScaleSchemasUpTo(maxWide, maxText int) []string {
+	var out []string
+	rep := func(n int, f func(i int) string, sep string) string {
+		parts := make([]string, n)
+		for i := range parts {
+			parts[i] = f(i)
+		}
+		return strings.Join(parts, sep)
+	}
+	is := strconv.Itoa
+	q := "type Query { q: Int } "
+	for _, n := range []int{31, 32, 33, 100, 101, 300, 1030} {
+		if n > maxWide {
+			continue
+		}
+		out = append(out,
+			"type Query { "+rep(n, func(i int) string { return "f" + is(i) + ": Int" }, " ")+" }",
+			q+"enum E { "+rep(n, func(i int) string { return "V" + is(i) }, " ")+" }",
+			q+"union U = "+rep(n, func(i int) string { return "T" + is(i) }, " | ")+" "+rep(n, func(i int) string { return "type T" + is(i) + " { a: Int }" }, " "),
+			"type Query { f("+rep(n, func(i int) string { return "a" + is(i) + ": Int = " + is(i) }, ", ")+"): Int }",
+			"directive @d("+rep(n, func(i int) string { return "a" + is(i) + ": Int" }, ", ")+") on FIELD_DEFINITION type Query { f: Int @d("+rep(n, func(i int) string { return "a" + is(i) + ": " + is(i) }, ", ")+") }",
+			"directive @r(a: Int) repeatable on FIELD_DEFINITION | OBJECT type Query "+rep(n, func(i int) string { return "@r(a: " + is(i) + ")" }, " ")+" { f: Int "+rep(n, func(i int) string { return "@r" }, " ")+" }",
+			q+rep(n, func(i int) string { return "interface I" + is(i) + " { a" + is(i) + ": Int }" }, " ")+" type T implements "+rep(n, func(i int) string { return "I" + is(i) }, " & ")+" { "+rep(n, func(i int) string { return "a" + is(i) + ": Int" }, " ")+" }",
+			q+"input In { "+rep(n, func(i int) string { return "a" + is(i) + ": [Int!] = [" + is(i) + "]" }, " ")+" }",
+			q+rep(n, func(i int) string { return "extend type Query { g" + is(i) + ": Int }" }, " "),
+			q+rep(n, func(i int) string { return "\"d" + is(i) + "\" scalar S" + is(i) }, " "),
+			q+"enum E { A } "+rep(n, func(i int) string { return "extend enum E { X" + is(i) + " }" }, " "),
+			"schema { query: Query } type Query { q: Int } directive @s(a: Int) repeatable on SCHEMA "+rep(n, func(i int) string { return "extend schema @s(a: " + is(i) + ")" }, " "),
+			q+"type T { f: "+strings.Repeat("[", n)+"Int"+strings.Repeat("]", n)+" }",
+		)
+	}
+	for _, n := range []int{1, 255, 256, 4092, 4093, 4094, 4095, 4096, 4097, 8192, 70000} {
+		if n > maxText {
+			continue
+		}
+		x := strings.Repeat("x", n)
+		out = append(out,
+			`"`+x+`" type Query { q: Int }`,
+			`"""`+x+`""" type Query { q: Int }`,
+			`"""`+strings.Repeat("line\n", n/5)+`end""" type Query { q: Int }`,
+			`type Query { "`+x+`" q("`+x+`" a: Int): Int }`,
+			`type Query { q: Int @deprecated(reason: "`+x+`") }`,
+			`type Query { q(a: String = "`+x+`"): Int }`,
+			q+`input In { a: [String] = ["`+x+`", "`+x+`"] }`,
+			q+`enum E { "`+x+`" A }`,
+			"type Query { "+x+": Int }",
+			"type Query { q: Int } type T"+x+" { a: Int }",
+			q+"#"+x+"\nscalar S",
+			`type Query { q: Int } directive @d(a: String) on OBJECT type T @d(a: """`+strings.Repeat("é", n/2)+`""") { a: Int }`,
+		)
 	}
 	return out
 }
